@@ -1,6 +1,7 @@
 """C11 — in-memory serialisation round trips preserve content in every history (DESIGN.md §4 C11)."""
 import json
 import os
+import time
 
 import torch
 
@@ -9,6 +10,30 @@ from .c11_impl import BY_SIZE, DT, FORMATS, KEYS, Scratch, call, carried, first_
 from .core import Sym, sx
 
 STRUCTURAL = ("set", "del", "rename", "lock", "unlock", "names", "newsub")
+
+# the case being executed is written to a file before every call that could take the process down (a wrong offset in the
+# code under test writes out of bounds): when a worker dies, its last trace is the failing input
+_TRACE = {"fd": None}
+
+
+def trace(obj):
+    fd = _TRACE["fd"]
+    if fd is not None:
+        data = json.dumps(obj, default=str).encode()
+        os.lseek(fd, 0, 0)
+        os.ftruncate(fd, 0)
+        os.write(fd, data)
+
+
+def trace_to(path):
+    _TRACE["fd"] = os.open(path, os.O_RDWR | os.O_CREAT, 0o600)
+
+
+def read_trace(path):
+    try:
+        return json.loads(open(path).read())
+    except Exception:  # noqa: BLE001
+        return {"tree": None, "ops": [], "format": "unknown (the process died before its first case)"}
 
 
 # ------------------------------------------------------------------ generators (R.rng only)
@@ -155,6 +180,8 @@ def gen_op(rng, td, mix, ctr, post, only=None):
             return None
         sub = gen_node(rng, list(node.batch_size), mix, 0, ctr, {"nt"}, extra_ok=False)
         sub["dev"] = None if node.device is None else "cpu"
+        if rng.random() < 0.25 and not any(e[1][0] == "t" and e[1][1] == "complex128" for e in sub["ents"]):
+            return ["newsub", path, rng.choice(free), sub, {"consolidated": True}]
         return ["newsub", path, rng.choice(free), sub]
     return None
 
@@ -183,22 +210,25 @@ def gen_case(rng, kinds=("nt", "njt", "lazy")):
     ops = []
     ctr = [rng.randrange(1000)]
     with Scratch() as scratch:
+        trace({"tree": tree, "ops": [], "format": "construction"})
         td = I.build(tree)
+
+        def apply(op):
+            nonlocal td
+            ops.append(op)
+            trace({"tree": tree, "ops": ops, "format": "history"})
+            td, _ = I.apply_op(td, op, scratch)
         for _ in range(rng.choice([0, 0, 1, 2, 3])):
             op = gen_op(rng, td, mix, ctr, False)
             if op:
-                ops.append(op)
-                td, _ = I.apply_op(td, op, scratch)
+                apply(op)
         if profile != "plain":
-            op = ["consolidate", gen_consolidate(rng)]
-            ops.append(op)
-            td, _ = I.apply_op(td, op, scratch)
+            apply(["consolidate", gen_consolidate(rng)])
             if profile in ("inplace", "mutate"):
                 for _ in range(rng.choice([1, 1, 2, 3, 4])):
                     op = gen_op(rng, td, mix, ctr, True, only=WRITES if profile == "inplace" else None)
                     if op:
-                        ops.append(op)
-                        td, _ = I.apply_op(td, op, scratch)
+                        apply(op)
                 if profile == "mutate" and rng.random() < 0.15:
                     ops.append(["consolidate", gen_consolidate(rng)])
     return {"tree": tree, "ops": ops, "mix": mix, "profile": profile}
@@ -382,6 +412,7 @@ def run_case(case, plan, on_result):
         td = I.build(case["tree"])
         log = []          # (op, outcome)
         cons_infos = []   # one per consolidate step
+        nested_cons = []  # (index in log, path) of nested tensordicts inserted already consolidated
         last_cons = None  # index in log of the consolidation that produced the live object
         cons = None       # its cons_info
         for op in case["ops"]:
@@ -411,16 +442,21 @@ def run_case(case, plan, on_result):
                     log.append((op, r[1]))
                 continue
             td, outcome = I.apply_op(td, op, scratch)
+            if op[0] == "newsub" and len(op) > 4 and outcome == "ok":
+                nested_cons.append((len(log), list(op[1]) + [op[2]]))
             log.append((op, outcome))
         before = obs(td)
         post = log[last_cons + 1:] if last_cons is not None else []
+        # nested tensordicts inserted after the root's consolidation (or without one) that carry their own snapshot
+        nested = [(p_, log[i + 1:]) for (i, p_) in nested_cons if last_cons is None or i > last_cons]
         for (fmt, opt) in plan:
             if not applicable(fmt, opt, td, before):
                 continue
             is_cons = td.is_consolidated()
-            ctx = {"step": "final", "consolidated": is_cons, "already_consolidated": is_cons, "post_ops": post,
+            ctx = {"step": "final", "consolidated": is_cons, "already_consolidated": is_cons, "post_ops": post, "nested": nested,
                    "cons": cons_info(td, dict(opt, file=fmt == "consolidate_file")) if fmt.startswith("consolidate") and not is_cons else cons,
                    "meta_misaligned16": meta_misaligned16(td)}
+            trace({"tree": case["tree"], "ops": case["ops"], "format": fmt, "opt": opt})
             r = call(lambda: FORMATS[fmt][0](td, scratch, opt))
             if r[0] != "ok" and fmt == "consolidate" and opt.get("inplace") and before["locked"] and "locked" in r[1]:
                 continue
@@ -436,7 +472,7 @@ def run_case(case, plan, on_result):
             again = obs(td)
             if again != before:
                 on_result(fmt + ":source-changed", opt, before, "ok", again, ctx, None)
-        log.append(("cons_infos", cons_infos, last_cons, cons))
+        log.append(("cons_infos", cons_infos, last_cons, cons, nested))
         return td, log
 
 
@@ -465,6 +501,11 @@ def explain(base_fmt, outcome, after, d, ctx, before):
             return "packed-record-unaligned-field"
         return "unexplained"
     field = d[1]
+    if base_fmt in ("pickle", "deepcopy"):
+        comps = [c for c in d[0].split("/") if c]
+        for (p_, later) in ctx.get("nested", []):
+            if comps[:len(p_)] == p_ and touched(later, d):
+                return "consolidated-then-modified"     # D12 on a nested object: its own snapshot is older than its content
     if base_fmt in ("pickle", "deepcopy") and ctx["consolidated"]:
         if touched(ctx["post_ops"], d):
             return "consolidated-then-modified"
@@ -667,6 +708,8 @@ def model_ops(td, op, scratch_td=None):
     if k == "names":
         return [Sym("names"), names_sx(op[1], len(op[1]))]
     if k == "newsub":
+        if len(op) > 4:
+            return None     # a nested tensordict with its own snapshot: the model has one snapshot per object (oracle only)
         sub = to_model(I.build(op[3]))
         return None if sub is None else [Sym("newsub"), list(op[1]), op[2], sub]
     if k == "consolidate":
@@ -894,6 +937,7 @@ def layout_grid(R, maxlen, sample):
         case = {"tree": tree, "ops": [], "format": "layout-grid"}
         R.case(("grid", json.dumps(seq)), nontrivial=len(seq) > 0, sample=case if len(seq) == 3 and len(R.samples) < 2 else None)
         R.count("grid:len%d" % len(seq))
+        trace(case)
         got = guard(R, "consolidate", case, lambda: one(seq, case))
         if got is None:
             continue
@@ -943,6 +987,7 @@ def struct_grid(R, maxlen):
                 continue
             tree = {"bs": [3], "names": None, "dev": None, "ents": [[f"k{i}", ["t", dt, [3], "plain", i + 2]] for i, dt in enumerate(combo)]}
             case = {"tree": tree, "ops": [], "format": "struct", "opt": {}, "step": "final"}
+            trace(case)
             td = I.build(tree)
             before = obs(td)
             r = call(lambda: obs(FORMATS["struct"][0](td, None, {})))
@@ -967,6 +1012,7 @@ def reserved_keys(R):
                 else ["t", "int32", [2], "plain", 9]
             tree = {"bs": [2], "names": None, "dev": None, "ents": [["b", ["t", "uint8", [2, 3], "plain", 1]], [key, ent]]}
             case = {"tree": tree, "ops": [["consolidate", {}]], "format": "pickle", "opt": {}, "step": "final"}
+            trace(case)
             pre = guard(R, "consolidate", case, lambda: (lambda td: (td, obs(td)))(I.build(tree).consolidate()))
             if pre is None:
                 continue
@@ -999,6 +1045,7 @@ def reserved_keys(R):
 # ------------------------------------------------------------------ pickling across processes
 def _child_loop(qin, qout):
     torch.set_num_threads(1)
+    qout.put(("ready", "ok", None))
     while True:
         try:
             item = qin.get()
@@ -1048,22 +1095,37 @@ def cross_process(R, n):
         finally:
             sp.get_preparation_data = orig
         try:
+            ready = qout.get(timeout=600)
+        except Exception:  # noqa: BLE001 -- the child did not come up (overloaded machine): no verdict from this transport
+            R.count("xproc:%s-child-not-ready" % method)
+            p.terminate()
+            continue
+        try:
             for ci, case in enumerate(cases):
                 full = dict(case, format="pickle", opt={"process": method}, step="final")
 
                 def one():
                     td, log = run_case(case, [], lambda *a: None)
-                    _, _, last, ci_info = log.pop()
+                    _, _, last, ci_info, nested = log.pop()
                     before = obs(td)
                     post = log[last + 1:] if last is not None else []
                     ctx_ = {"step": "final", "consolidated": td.is_consolidated(), "already_consolidated": td.is_consolidated(),
-                            "post_ops": post, "cons": ci_info, "meta_misaligned16": meta_misaligned16(td)}
+                            "post_ops": post, "cons": ci_info, "meta_misaligned16": meta_misaligned16(td), "nested": nested}
                     try:
                         buf = bytes(ForkingPickler.dumps(td))   # what Queue.put does in its feeder thread
-                        qin.put((ci, buf))
-                        tag, outcome, after = qout.get(timeout=90)
                     except Exception as e:  # noqa: BLE001
-                        outcome, after = "raise", type(e).__name__ + ": " + str(e)[:100]
+                        buf, outcome, after = None, "raise", type(e).__name__ + ": " + str(e)[:100]
+                    if buf is not None:
+                        import queue
+                        qin.put(((method, ci), buf))
+                        try:
+                            while True:
+                                tag, outcome, after = qout.get(timeout=600)
+                                if tag == (method, ci) or tag is None:
+                                    break
+                        except queue.Empty:
+                            R.count("xproc:%s-timeout" % method)   # no answer: not a verdict
+                            return True
                     R.case(("xproc", method, json.dumps(case, sort_keys=True)), nontrivial=bool(before["ents"]))
                     R.count("format:pickle-" + method)
                     judge(R, full, "pickle", {"process": method}, before, outcome, after, ctx_)
@@ -1119,8 +1181,138 @@ def consume(R, recs):
     compare_model(R, recs)
 
 
-def main(R):
+def _job_worker(group, tmp):
+    """runs jobs one after the other; results of job i go to res<i>.pkl, the case in flight to trace<i>.json"""
+    import pickle
+    for (ji, job) in group:
+        trace_to(os.path.join(tmp, f"trace{ji}.json"))
+        recs = _work(job)
+        with open(os.path.join(tmp, f"res{ji}.tmp"), "wb") as f:
+            pickle.dump(recs, f)
+        os.rename(os.path.join(tmp, f"res{ji}.tmp"), os.path.join(tmp, f"res{ji}.pkl"))
+    os._exit(0)
+
+
+def cpu_seconds(pid):
+    """user+system CPU time consumed by a process (to tell a non-terminating call from a starved machine)"""
+    try:
+        f = open(f"/proc/{pid}/stat").read().rsplit(")", 1)[1].split()
+        return (int(f[11]) + int(f[12])) / os.sysconf("SC_CLK_TCK")
+    except Exception:  # noqa: BLE001
+        return 0.0
+
+
+class Starved(RuntimeError):
+    pass
+
+
+def died(R, what, tr, detail):
+    case = read_trace(tr)
+    R.case(("died", json.dumps(case, sort_keys=True, default=str)), nontrivial=True)
+    R.oracle_fail(what, case, detail, {"call": str(case.get("format")), "kind": "process-died", "pattern": "unexplained"})
+
+
+def run_jobs(R, jobs, nproc, timeout):
+    """histories x formats in worker processes; a worker that dies (segfault in the code under test) or hangs is a failing
+    input, not a crash of the check"""
     import multiprocessing as mp
+    import pickle
+    import shutil
+    import tempfile
+    ctx = mp.get_context("fork")
+    tmp = tempfile.mkdtemp(prefix="c11-jobs-")
+    pending = list(enumerate(jobs))
+    rounds = 0
+    try:
+        while pending and rounds < 6:
+            rounds += 1
+            groups = [g for g in (pending[i::nproc] for i in range(nproc)) if g]
+            procs = []
+            for g in groups:
+                p = ctx.Process(target=_job_worker, args=(g, tmp), daemon=True)
+                p.start()
+                procs.append((p, g))
+            pending = []
+            t_end = time.time() + timeout
+            for p, g in procs:
+                p.join(timeout=max(1.0, t_end - time.time()))
+                hung = p.is_alive()
+                if hung:
+                    cpu = cpu_seconds(p.pid)
+                    p.kill()
+                    p.join(5)
+                    if cpu < 0.4 * timeout:
+                        raise Starved(f"a worker got {cpu:.0f}s of CPU in {timeout}s: the machine is overloaded, no verdict")
+                rest = []
+                for (ji, job) in g:
+                    fn = os.path.join(tmp, f"res{ji}.pkl")
+                    if os.path.exists(fn) and not rest:
+                        consume(R, pickle.load(open(fn, "rb")))
+                        os.remove(fn)
+                    else:
+                        rest.append((ji, job))
+                if rest:
+                    died(R, "history:process-" + ("hung" if hung else "died"), os.path.join(tmp, f"trace{rest[0][0]}.json"),
+                         {"exitcode": p.exitcode, "note": "the worker process did not survive this case"})
+                    pending.extend(rest[1:])
+    finally:
+        shutil.rmtree(tmp, ignore_errors=True)
+
+
+R_FIELDS = ("evaluations", "distinct", "samples", "hist", "mismatches", "oracle_failures", "broken", "traces", "extra")
+
+
+def supervised(R, name, f, timeout):
+    """one section of the check in a forked child: what it recorded comes back through a file; if the child dies the last
+    traced case is reported as a failing input"""
+    import multiprocessing as mp
+    import pickle
+    import shutil
+    import tempfile
+    tmp = tempfile.mkdtemp(prefix="c11-sec-")
+    tr, out = os.path.join(tmp, "trace.json"), os.path.join(tmp, "out.pkl")
+
+    def child():
+        trace_to(tr)
+        try:
+            f(R)
+            state = {k: getattr(R, k) for k in R_FIELDS}
+            state["rng"] = R.rng.getstate()
+            with open(out + ".tmp", "wb") as fh:
+                pickle.dump(state, fh)
+            os.rename(out + ".tmp", out)
+        except BaseException:  # noqa: BLE001
+            import traceback
+            with open(os.path.join(tmp, "error.txt"), "w") as fh:
+                fh.write(traceback.format_exc())
+        os._exit(0)
+    p = mp.get_context("fork").Process(target=child)
+    p.start()
+    p.join(timeout)
+    hung = p.is_alive()
+    if hung:
+        cpu = cpu_seconds(p.pid)
+        p.kill()
+        p.join(5)
+        if cpu < 0.4 * timeout:
+            shutil.rmtree(tmp, ignore_errors=True)
+            raise Starved(f"section {name} got {cpu:.0f}s of CPU in {timeout}s: the machine is overloaded, no verdict")
+    try:
+        if os.path.exists(out):
+            state = pickle.load(open(out, "rb"))
+            R.rng.setstate(state.pop("rng"))
+            for k, v in state.items():
+                setattr(R, k, v)
+        elif os.path.exists(os.path.join(tmp, "error.txt")):
+            raise RuntimeError(f"section {name} of the check raised:\n" + open(os.path.join(tmp, "error.txt")).read())
+        else:
+            died(R, name + ":process-" + ("hung" if hung else "died"), tr,
+                 {"exitcode": p.exitcode, "note": f"section '{name}' of the check did not survive this case"})
+    finally:
+        shutil.rmtree(tmp, ignore_errors=True)
+
+
+def main(R):
     torch.set_num_threads(1)
     R.rule = ("trees (depth <= 2, 0-5 entries per node, batch shapes of rank 0-2 incl. 0-size dims, names, device None/cpu) whose leaves "
               "draw dtypes from a mix of element sizes in {1,2,4,8,16} (12 dtypes), shapes with 0-size / rank-0 feature dims, "
@@ -1137,27 +1329,37 @@ def main(R):
                      "fields compared per format: pickle/deepcopy/consolidate/from_consolidated: keys, dtypes, shapes, values, batch sizes, "
                      "names, device, lock state, container types; state_dict: keys, values, batch sizes (documented: no names); "
                      "pytree: all but lock state; to_dict/namedtuple/struct array: keys, values (+ the batch size the caller passes again)",
-                     "key ORDER is not compared (equality of tensordicts is by key)"]
+                     "key ORDER is not compared (equality of tensordicts is by key)",
+                     "the model covers TensorDict trees with tensor and NonTensorData entries; lazy stacks, jagged tensors, tensorclasses, "
+                     "worker-thread consolidation of non-contiguous / mis-aligned leaves and the use_buffer storage are judged by the oracle only"]
     R.trusted = ["harness/c11_impl.py (builders, canonical observation) and the per-format table of carried fields",
                  "torch's view / copy / pickling of storages; multiprocessing transport"]
     R.step_prove()
     if not R.step_driver():
         return
-    # 1. arithmetic core: exhaustive small grid
-    layout_grid(R, 3, 700 if R.quick else None)
-    if not R.quick:
-        layout_grid(R, 4, 6000)
-    struct_grid(R, 2 if R.quick else 3)
-    reserved_keys(R)
+    q = R.quick
+    # 1. arithmetic core: exhaustive small grid (+ struct-array and reserved-key grids)
+
+    def sec_grid(R):
+        layout_grid(R, 3, 700 if q else None)
+        if not q:
+            layout_grid(R, 4, 6000)
+        struct_grid(R, 2 if q else 3)
+        reserved_keys(R)
+    t0 = time.time()
+    supervised(R, "layout-grid", sec_grid, 900 if q else 3000)
+    R.extra["grid_wall_s"] = round(time.time() - t0, 1)
     # 2. histories x formats
-    n_cases = 1600 if R.quick else 48000
+    n_cases = 1600 if q else 48000
     chunk = 50
     jobs = [(R.rng.getrandbits(62), chunk) for _ in range(n_cases // chunk)]
-    with mp.get_context("fork").Pool(8 if R.quick else 14) as pool:
-        for recs in pool.imap(_work, jobs):
-            consume(R, recs)
+    t0 = time.time()
+    run_jobs(R, jobs, 8 if q else 14, 900 if q else 3000)   # (the timeout only bounds a genuine non-termination)
+    R.extra["histories_wall_s"] = round(time.time() - t0, 1)
     # 3. across processes
-    cross_process(R, 6 if R.quick else 40)
+    t0 = time.time()
+    supervised(R, "cross-process", lambda R: cross_process(R, 6 if q else 40), 900 if q else 3000)
+    R.extra["cross_process_wall_s"] = round(time.time() - t0, 1)
     R.exhaustive = False
 
 
